@@ -3,6 +3,7 @@
 package rawcli
 
 import (
+	"crypto/tls"
 	"fmt"
 	"net"
 	"sync"
@@ -42,6 +43,19 @@ func Dial(addr string) (*Client, error) {
 	if tc, ok := nc.(*net.TCPConn); ok {
 		tc.SetNoDelay(true)
 	}
+	c := &Client{nc: nc, fence: 30000}
+	c.cond = sync.NewCond(&c.mu)
+	go c.read()
+	return c, nil
+}
+
+// DialTLS connects through TLS (the handshake is bounded by 5 s).
+func DialTLS(addr string, cfg *tls.Config) (*Client, error) {
+	nc, err := tls.DialWithDialer(&net.Dialer{Timeout: 5 * time.Second, Deadline: time.Now().Add(5 * time.Second)}, "tcp", addr, cfg)
+	if err != nil {
+		return nil, err
+	}
+	_ = nc.SetDeadline(time.Time{})
 	c := &Client{nc: nc, fence: 30000}
 	c.cond = sync.NewCond(&c.mu)
 	go c.read()
